@@ -697,6 +697,17 @@ func checkC17(p *Prog, r *Report) {
 			}
 			n++
 			okV := false
+			for i := 0; i < 3; i++ { // a named intermediate does not change the value
+				id, isI := unparen(rhs).(*ast.Ident)
+				if !isI {
+					break
+				}
+				d, okD := p.SingleDef(f, p.ObjOf(id))
+				if !okD || d.Rhs == nil || d.Index != 0 {
+					break
+				}
+				rhs = d.Rhs
+			}
 			if cv, isC := unparen(rhs).(*ast.CallExpr); isC && p.ConvTarget(cv) == "uint32" && len(cv.Args) == 1 {
 				if id, isI := unparen(cv.Args[0]).(*ast.Ident); isI && typeStr(p.TypeOf(id)) == "ice.PriorityAttr" {
 					okV = true
